@@ -63,7 +63,8 @@ CHECKS = {
          "(re)definition schedule 1K/2K/4K/8K/+4K counted per output byte also in the middle of copies with the optional-rebuild bit, "
          "pm1 start-header trees, position-dependent copy ranges, byte blocks, and continuation on implicit zero bits. An independent "
          "encoder drives every structural case (each history and copy class at its edges, each pm2 schedule state entered by a "
-         "literal / end of copy / mid-copy, all 32 pm1 trees, every pm1 threshold +-1, early stream end - every pm1 stream also with the zero bytes at its end dropped, which cuts "
+         "literal / end of copy / mid-copy - and by copies at distance 0 (runs), 1, 63 and further back, of length 2, 40 and 256, ending on the "
+         "point, one byte short of it, one past it and across it - all 32 pm1 trees, every pm1 threshold +-1, early stream end - every pm1 stream also with the zero bytes at its end dropped, which cuts "
          "inside the last literal's code at every bit position); the real decoder's chunks "
          "must equal the definition's and the expansion of the commands. Grounded on the corpus' PMarc members (CRC recorded by PMarc).",
     design_ref="DESIGN.md section 5, C04",
@@ -79,7 +80,8 @@ CHECKS = {
          "members, endless decoders); mutated generated headers of all levels (the generator of C05/C12); random bytes behind a "
          "valid signature with plausible level/length/checksum bytes; bit-flipped generated multi-member archives; the cross product header "
          "shape x OS type x kind of body (Mac envelopes behind nameless headers, link modes without targets); level 0 / 1 headers whose "
-         "name length sits on or next to what the header leaves room for. Each input "
+         "name length sits on or next to what the header leaves room for; level-0 extended areas of every length 0..26 for each kind of area "
+         "(each fixed offset an area decoder reads is a boundary). Each input "
          "is driven through the library with disciplined random call sequences (next/read/check/extract, three directory "
          "policies, five stream kinds) and through the tool in modes l, lv, v, vv, t, p, xn and x. Any sanitizer report, signal, "
          "abnormal exit status or exhausted step budget is a violation; a sample of the library executions is validated against "
@@ -200,7 +202,8 @@ CHECKS = {
          "over {a, b, ?, *}, through lq2 / l / vq2 (Cli!MainOutput). For generated archives the record behind every row must be Header!Parse of "
          "the member's bytes (Trace_List!RecordIsParse), so rows are checked against the archive and not against what the library says it "
          "contains; packed / original pairs include ratios on the edge of the printed precision (exact ties, pairs sensitive to the order of "
-         "the single-precision operations).",
+         "the single-precision operations); link entries under the OS types whose all-capitals names are folded to lower case, with name, path "
+         "and target case patterns (the fold is decided by the name and never touches the target).",
     design_ref="DESIGN.md section 5, C19",
     note="TZ=UTC; `now` via TEST_NOW_TIME. The ratio digits come from a float32 emulation in the harness (not TLA+). Header records "
          "are those the library returns.",
@@ -244,7 +247,7 @@ CHECKS = {
          "where 32-bit sums wrap back into the header, at the sign bit and around the 1 MiB cap); plus sparse mutations of "
          "hundreds of random headers. For each mutated input TLC evaluates the integrity rule (Header.tla's Parse, incl. byte "
          "checksum and CRC-16 computed in TLA+) on the logged bytes and requires: rule fails => no header returned and the next "
-         "request returns none either. The identity cross product (OS type x method x length x name header x path header x kind of "
+         "request returns none either. Level-0 extended areas of every length 0..26 (Unix, OS-9/68K, OS-9, unknown). The identity cross product (OS type x method x length x name header x path header x kind of "
          "permissions x level) covers the rules about entries without a name or a path, the Amiga directory quirk included.",
     design_ref="DESIGN.md section 5, C12",
     note="A dummy member precedes each case so that the lead-in scan (which would skip a damaged signature) is not in play.",
